@@ -181,7 +181,7 @@ def clause_c(ctx, P):
         oka = any(must_pass_edges(h, bb, e_acc) for (bb, i) in trues)
         ctx.ob("C20c.accept-unsolicited", h.name, oka, h.loc(), "accept_unsolicited forces is_for_us = true")
     # the subtype reverse map is only fed for records that are for us
-    sub = _map_calls(P, f, ("insert",)).get("subtype", [])
+    sub = _map_calls(P, f, ("insert", "entry")).get("subtype", [])       # insert, or the entry API
     ok = bool(sub) and all(guarded(P, f, sb, e_us) for (sf, sb, meth) in sub if sf is f)
     ctx.ob("C20c.subtype-only-for-us", f.name, ok, f.loc(), "the subtype reverse map is written only when is_for_us")
 
